@@ -514,3 +514,45 @@ def run_C11(ctx):
     ctx.cov["evaluations"] = ctx.cov.get("evaluations", 0) + len(ncases) + len(pcases)
     cov(ctx, cases, impl, "histories x chunk limits incl. 0 and 1 (records) and 0, 1, 60, 150, 400 (bytes); after flush + idle the raw chunk files are decoded by an independent decoder: names abut, heads are the closing states, one record per accepted write in call order, every returned segment locates its record, rotation exactly at the limit, on_disk_size; non-trivial = contains a rotation or a refused operation")
     return core.finish(ctx, proof)
+
+
+core.register("C02", "Props.C02", "theories/Props/C02.vo",
+              ["C02_restart", "C02_restart_continue", "C02_restart_cycles"])
+
+
+def run_C02(ctx):
+    proof = core.proof_stage("C02")
+    core.builds()
+    n = ctx.scale(400, 4000)
+    cases = corpus("C02") + gen_cases(ctx, n, 5, ctx.scale(60, 250), big_cache=True, p_reject=0.05, restarts=4,
+                                      finals=["F 1", "I", "G", "R 0 100000", "D", "K",
+                                              "X 100000 1073741824 3 200 1 1", "G", "R 0 100000", "D", "K"])
+    impl, model = seq_run(ctx, cases)
+    spec_oracle(ctx, cases, impl, "C02 oracle")
+    # direct: what is observed right after every restart equals what was observed right before it,
+    # and a clean restart leaves the directory byte-for-byte unchanged
+    bad, nre = 0, 0
+    for c, a in zip(cases, impl):
+        f = fields(a)
+        ops = ["open"] + [o.strip() for o in c.split("|", 1)[1].split(";")]
+        for k, o in enumerate(ops):
+            if o.startswith("X ") and k < len(f):
+                nre += 1
+                if f[k] != "opened":
+                    bad += 1
+                    ctx.fail("oracle", "a clean restart did not open: " + f[k], dict(kind="seq", case=c, at_op=k, op=o))
+                    break
+        # the final block: G R D K  X  G R D K
+        if len(f) == len(ops) and f[-9].startswith("stat") and f[-4].startswith("stat"):
+            before = (state_of_stat(f[-9]), f[-8], f[-7], f[-6])
+            after = (state_of_stat(f[-4]), f[-3], f[-2], f[-1])
+            if before != after:
+                bad += 1
+                if bad <= 3:
+                    which = [n for n, x, y in zip(("state", "read", "snapshot iteration", "directory bytes"), before, after) if x != y]
+                    ctx.fail("oracle", "C02 oracle: %s differ(s) across a clean restart" % ", ".join(which),
+                             dict(kind="seq", case=c, before=[x[:300] for x in before], after=[x[:300] for x in after]))
+    ctx.count("restarts_checked", nre)
+    ctx.k_checks["oracle-same-before-and-after-restart"] = (bad == 0, nre)
+    cov(ctx, cases, impl, "histories with 1-4 clean restarts (flush, idle, drop, open) at random positions, every restart under a freshly drawn configuration (chunk limits incl. 0/1, read buffer), 5% refused operations; state, full read, snapshot iteration and raw directory bytes compared across the final restart; non-trivial = contains a rotation or a refused operation")
+    return core.finish(ctx, proof)
